@@ -86,6 +86,9 @@ func c09Pure(c *ctx) {
 			"Tao":           func() interface{} { return lunarOf().GetTao() },
 			"Foto":          func() interface{} { return lunarOf().GetFoto() },
 			"SolarWeek":     func() interface{} { return calendar.NewSolarWeekFromYmd(m[0], m[1], m[2], 1) },
+			// week starts outside 0..6 are taken as they come: whatever the unit makes of them, reading it does not change it
+			"SolarWeek(start=-1)": func() interface{} { return calendar.NewSolarWeekFromYmd(m[0], m[1], m[2], -1) },
+			"SolarWeek(start=8)":  func() interface{} { return calendar.NewSolarWeekFromYmd(m[0], m[1], m[2], 8) },
 			"SolarMonth":    func() interface{} { return calendar.NewSolarMonthFromYm(m[0], m[1]) },
 			"SolarYear":     func() interface{} { return calendar.NewSolarYearFromYear(m[0]) },
 			"SolarSeason":   func() interface{} { return calendar.NewSolarSeasonFromYm(m[0], m[1]) },
